@@ -254,7 +254,7 @@ class Ctx:
         return names
 
     # -- correspondence through Coq -------------------------------------------------------
-    def coq_cases(self, tag, header, case_exprs, check_fn, tol_text, shard=200, timeout=900, kind=None):
+    def coq_cases(self, tag, header, case_exprs, check_fn, tol_text, shard=200, timeout=900, kind=None, record_err=True):
         """case_exprs: list of (id:int, coq_expr_text) ; check_fn: Coq function  case -> (bool * Z).
         Emits shards, runs them, returns dict id -> (ok, log2err) ; missing ids = evaluation failure."""
         files = []
@@ -275,7 +275,8 @@ class Ctx:
                 continue
             for cid, ok, e in parse_results(so):
                 out[cid] = (ok, e)
-                self.err(kind or tag, e, tol_text)
+                if record_err:
+                    self.err(kind or tag, e, tol_text)
         self.checker_cmds.append('coqc -Q coq/theories Dadi build/cases/%s_%s_*.v  (%d cases, vm_compute)' % (self.prop, tag, len(case_exprs)))
         return out
 
